@@ -193,6 +193,69 @@ def _rrs_inv(e):
         tm.Implies(sp.contains_t(k), sp_pre.contains_t(k))))
 
 
+from vc.report import replayer  # noqa: E402
+
+
+@replayer("C03/Scheduler.record_run_stopped/")
+def replay_record_run_stopped(o):
+    """Rebuild the two dicts from the counter-model (restricted to the keys the model talks about), run the real
+    method with a clock that returns a later time, and test retention on the result."""
+    from vc.report import const_name, model_terms
+
+    names = {n: const_name(o, n) for n in ("self.start_times.has", "self.start_times.val", "self.stop_times.has",
+                                           "self.stop_times.val", "step_i", "succeeded", "ghost.k", "ghost.j")}
+    if not all(names.values()):
+        return dict(reproduced=False, reason="model constants not found")
+    sth, stv, sph, spv = (names[x] for x in ("self.start_times.has", "self.start_times.val", "self.stop_times.has", "self.stop_times.val"))
+    base = model_terms(o, [(INT, names["step_i"]), (BOOL, names["succeeded"]), (INT, names["ghost.k"]), (INT, names["ghost.j"])])
+    if not base:
+        return dict(reproduced=False, reason="no model")
+    step_i, succ, k, j = (base[names[x]] for x in ("step_i", "succeeded", "ghost.k", "ghost.j"))
+    pin = [f"(= {names['step_i']} {_smt_int(step_i)})", f"(= {names['ghost.k']} {_smt_int(k)})", f"(= {names['ghost.j']} {_smt_int(j)})",
+           f"(= {names['succeeded']} {'true' if succ else 'false'})"]
+    keys = sorted({step_i, k, j})
+    terms = []
+    for key in keys:
+        kk = _smt_int(key)
+        terms += [(BOOL, f"(select {sth} {kk})"), (INT, f"(select {stv} {kk})"), (BOOL, f"(select {sph} {kk})"), (INT, f"(select {spv} {kk})")]
+    m = model_terms(o, terms, extra=pin)
+    if m is None:
+        return dict(reproduced=False, reason="no model for the map entries")
+    start = {key: m[f"(select {stv} {_smt_int(key)})"] for key in keys if m[f"(select {sth} {_smt_int(key)})"]}
+    stop = {key: m[f"(select {spv} {_smt_int(key)})"] for key in keys if m[f"(select {sph} {_smt_int(key)})"]}
+    code = (
+        "import sys, time, types\n"
+        "from stepup.core import scheduler as S\n"
+        f"start, stop, step_i, succeeded = {start!r}, {stop!r}, {step_i!r}, {succ!r}\n"
+        "now = max([0] + list(start.values()) + list(stop.values())) + 1\n"
+        "S.time = types.SimpleNamespace(monotonic_ns=lambda: now)\n"
+        "obj = types.SimpleNamespace(start_times=dict(start), stop_times=dict(stop), run_counter=0)\n"
+        "S.Scheduler.record_run_stopped(obj, step_i, succeeded=succeeded)\n"
+        "bad = []\n"
+        "cand = dict(stop)\n"
+        "if succeeded: cand[step_i] = now\n"
+        "for k, v in cand.items():\n"
+        "    for j, t in start.items():\n"
+        "        if j != step_i and t <= v and obj.stop_times.get(k) != v:\n"
+        "            bad.append(f'stop time {v} of step {k} dropped although step {j} has been running since {t}')\n"
+        "for k in obj.stop_times:\n"
+        "    if k not in cand: bad.append(f'stop time of step {k} appeared from nowhere')\n"
+        "if step_i in obj.start_times: bad.append('the stopped step is still recorded as running')\n"
+        "print('start_times', start, 'stop_times', stop, 'stopped', step_i, 'succeeded', succeeded, '->', obj.stop_times, bad)\n"
+        "sys.exit(1 if bad else 0)\n")
+    import subprocess
+
+    r = subprocess.run(["/venv/bin/python", "-c", code], cwd=extract.REPO, capture_output=True, text=True,
+                       env={"PYTHONPATH": extract.REPO, "PATH": "/usr/bin:/bin"})
+    return dict(reproduced=r.returncode == 1, python=code, output=(r.stdout + r.stderr)[-1500:],
+                witness=dict(start_times=start, stop_times=stop, stopped=step_i, succeeded=succ,
+                             claim="the stop time of a finished producer is dropped although a run in progress started before it"))
+
+
+def _smt_int(v: int) -> str:
+    return str(v) if v >= 0 else f"(- {-v})"
+
+
 @contract("stepup/core/scheduler.py::Scheduler.record_run_stopped", props=["C03"])
 class record_run_stopped:
     """The bookkeeping behind ran_concurrently: pruning never drops a stop time that a run still in progress (one
